@@ -4,6 +4,7 @@ CONSTANTS MaxW = 3
           MinCells = 1
           MaxCells = 4
           AlphaName = "plain"
+          OpSet = "all"
           Prot = FALSE
           Quirks <- NoQuirks
 INVARIANT ResultKinds
